@@ -193,7 +193,12 @@ var propC01 = &propDef{id: "C01", oracles: []oracleFn{oracleC01}, scenarios: taS
 	}}
 
 var propC03 = &propDef{id: "C03", oracles: []oracleFn{oracleC03}, scenarios: taScenarios}
-var propC05 = &propDef{id: "C05", oracles: []oracleFn{oracleC05}, scenarios: bothScenarios}
+
+// C05 quantifies over configuration updates too - accepted and rejected ones (a rejected update is rolled back by re-applying
+// the old configuration, which may move containers again): the reconfiguration scenarios of C13 are part of its driver.
+var propC05 = &propDef{id: "C05", oracles: []oracleFn{oracleC05}, scenarios: func(thorough bool) []*scenario {
+	return append(bothScenarios(thorough), c13Scenarios(thorough)...)
+}}
 
 func bothScenarios(thorough bool) []*scenario {
 	return append(taScenarios(thorough), blScenarios(thorough)...)
